@@ -322,7 +322,7 @@ fn main() {
 
     // many identifiers: canonical-shape versions whose build metadata has hundreds to thousands of identifiers (around powers
     // of two and ten) - the clauses put no bound on their number; also a PEP 440 local segment of that many parts
-    let counts: Vec<usize> = if quick { vec![64, 65, 255, 256, 257, 1000, 1024, 1025, 4097, 10001] } else { vec![64, 65, 127, 128, 129, 255, 256, 257, 511, 512, 513, 999, 1000, 1001, 1023, 1024, 1025, 2047, 2048, 2049, 4095, 4096, 4097, 8191, 8192, 8193, 9999, 10000, 10001, 16383, 16384, 16385, 32767, 32768, 32769, 50000, 65535, 65536, 65537] };
+    let counts: Vec<usize> = if quick { vec![64, 65, 255, 256, 257, 1000, 1024, 1025, 4097, 10001] } else { vec![64, 65, 127, 128, 129, 255, 256, 257, 511, 512, 513, 999, 1000, 1001, 1023, 1024, 1025, 2047, 2048, 2049, 4095, 4096, 4097, 8191, 8192, 8193, 9999, 10000, 10001, 16383, 16384, 16385, 32767, 32768, 32769] };
     let many: Vec<Canon> = counts.iter().flat_map(|&n| {
         let build: &'static str = Box::leak((0..n).map(|i| format!("b{}", i % 10)).collect::<Vec<_>>().join(".").into_boxed_str());
         let one = |x: &str| x.to_string();
